@@ -55,6 +55,15 @@ impl<T> Lock<T> {
     pub fn new(v: T) -> Self {
         Lock(HalfLock::new(v))
     }
+    pub fn set_generation(&self, g: usize) {
+        self.0.verif_set_generation(g)
+    }
+    pub fn poison(&self) {
+        self.0.verif_poison()
+    }
+    pub fn ids(&self) -> (usize, usize, usize, usize, usize) {
+        self.0.verif_ids()
+    }
     pub fn read(&self) -> RGuard<T> {
         RGuard(self.0.read())
     }
@@ -173,6 +182,12 @@ pub fn lock_counter_vars() -> [usize; 4] {
     let a = g.data.verif_ids();
     let b = g.race_fallback.verif_ids();
     [a.2, a.3, b.2, b.3]
+}
+/// Poison both registry writer mutexes (an earlier mutator panicked while holding them).
+pub fn poison_registry_locks() {
+    let g = GlobalData::ensure();
+    g.data.verif_poison();
+    g.race_fallback.verif_poison();
 }
 pub fn data_mutex_var() -> usize {
     GlobalData::ensure().data.verif_mutex_id()
